@@ -752,6 +752,17 @@ func (s *sev) callFn(fr *sevFrame, f *tFn, args []tv, packed bool, resT types.Ty
 		case "encoding/json.Unmarshal":
 			if m, ok := args[0].(*tCallU); ok && m.Name == "json.Marshal" {
 				if pp, ok := args[1].(*tPtr); ok {
+					src := m.Args[0]
+					if ps, ok := src.(*tPtr); ok {
+						src = ps.C.v
+					}
+					// written through one struct type, read through another: members travel by their JSON names
+					if so, ok := src.(*tObj); ok {
+						if cur, ok := pp.C.v.(*tObj); ok && structOf(cur.T) != nil && !types.Identical(types.Unalias(cur.T).Underlying(), types.Unalias(so.T).Underlying()) {
+							pp.C.v = jsonTransit(so, cur.T)
+							return tNil{}
+						}
+					}
 					pp.C.v = cloneTV(m.Args[0])
 					return tNil{}
 				}
@@ -1662,6 +1673,64 @@ func (s *sev) isOuterCell(lc *loopCollector, c *tcell) bool {
 		}
 	}
 	return false
+}
+
+// jsonTransit carries the members of a struct term written by encoding/json into a struct of another type read by
+// encoding/json: members are matched by JSON name; a value read into a pointer-typed member becomes a pointer to it;
+// members the reader has no field for are dropped, members the writer did not write stay zero.
+func jsonTransit(src *tObj, targetT types.Type) tv {
+	out := &tObj{T: targetT, F: map[string]*tcell{}}
+	sst, tst := structOf(src.T), structOf(targetT)
+	if sst == nil || tst == nil {
+		return cloneTV(src)
+	}
+	byName := map[string]tv{}
+	for i := 0; i < sst.NumFields(); i++ {
+		f := sst.Field(i)
+		name, _, skip := jsonTag(f, sst.Tag(i))
+		if skip || !f.Exported() {
+			continue
+		}
+		if c, ok := src.F[f.Name()]; ok && c.v != nil {
+			byName[name] = c.v
+		}
+	}
+	for i := 0; i < tst.NumFields(); i++ {
+		f := tst.Field(i)
+		name, _, skip := jsonTag(f, tst.Tag(i))
+		if skip || !f.Exported() {
+			continue
+		}
+		v, ok := byName[name]
+		if !ok {
+			continue
+		}
+		if _, isNil := v.(tNil); isNil {
+			continue
+		}
+		_, wantPtr := types.Unalias(f.Type()).Underlying().(*types.Pointer)
+		_, isPtr := v.(*tPtr)
+		switch {
+		case wantPtr && !isPtr:
+			inner := v
+			if so, ok := v.(*tObj); ok && structOf(derefT(f.Type())) != nil {
+				inner = jsonTransit(so, derefT(f.Type()))
+			}
+			v = &tPtr{&tcell{inner}}
+		case !wantPtr && isPtr:
+			v = v.(*tPtr).C.v
+		}
+		if so, ok := v.(*tObj); ok && structOf(f.Type()) != nil && !wantPtr {
+			v = jsonTransit(so, f.Type())
+		}
+		if pp, ok := v.(*tPtr); ok && wantPtr {
+			if so, ok := pp.C.v.(*tObj); ok && structOf(derefT(f.Type())) != nil && !types.Identical(types.Unalias(so.T).Underlying(), types.Unalias(derefT(f.Type())).Underlying()) {
+				v = &tPtr{&tcell{jsonTransit(so, derefT(f.Type()))}}
+			}
+		}
+		out.F[f.Name()] = &tcell{v}
+	}
+	return out
 }
 
 // collectMapCells records the current value of every cell (reachable from c) that holds a map union.
